@@ -25,6 +25,7 @@ type Config struct {
 	Seed            int64
 	Strings         bool   // string mode: cvc5 is the deciding solver
 	SplitMax        int    // max pieces strings.Split may produce on a symbolic string
+	Races           bool   // report unsynchronised conflicting memory accesses (happens-before)
 	YieldUnlock     bool   // Mutex.Unlock is a preemption point too
 	BlockChoices    bool   // explore every choice of the next thread at blocking points (else round-robin)
 	Property        string // obligations tagged with other properties are skipped
@@ -416,6 +417,26 @@ func (pm *pathMgr) recordViolation(kind, label string, vars map[string]int64) {
 	}
 	w.violations = append(w.violations, &Violation{Harness: w.harness, Label: label, Kind: kind, Vars: vars, SVars: pm.lastSVars,
 		Choices: append([]int64{}, pm.choices...), Oracle: append([]int64{}, pm.oracle...), Trace: append([]int64{}, pm.trace...), Facts: facts, Solver: pm.sol.lastBy})
+}
+
+// raceViolation records a data race seen on this path (definite on the path:
+// the schedule is part of the path's choices).
+func (pm *pathMgr) raceViolation(label string) {
+	if !pm.relevant(label) {
+		return
+	}
+	if pm.concrete != nil {
+		pm.concrete.failed = append(pm.concrete.failed, label)
+		return
+	}
+	w := pm.w
+	w.obligations[label]++
+	m, ok := pm.model()
+	if !ok {
+		w.incomplete("model for a data race unavailable: " + label)
+		return
+	}
+	pm.recordViolation("race", label, m)
 }
 
 // assert is an explicit obligation of the harness.
